@@ -669,18 +669,31 @@ func PrintAllTypes() {
 func PrintTargetClassExtends() {
 	className := getTargetClass()
 
-	for classNode, parents := range base.ClassInheritanceMap {
-		if classNode.Class == className {
-			for _, parent := range parents {
-				switch parent.Class {
-				case "":
-					fmt.Println("Object")
-				default:
-					fmt.Println(parent.Class)
-				}
-			}
+	// several frames may define a class of this name: pick the same one on
+	// every run (the smallest frame) instead of the first one the map yields
+	var target *base.ClassNode
 
-			return
+	for classNode := range base.ClassInheritanceMap {
+		if classNode.Class != className {
+			continue
+		}
+
+		if target == nil || classNode.Frame < target.Frame {
+			node := classNode
+			target = &node
+		}
+	}
+
+	if target == nil {
+		return
+	}
+
+	for _, parent := range base.ClassInheritanceMap[*target] {
+		switch parent.Class {
+		case "":
+			fmt.Println("Object")
+		default:
+			fmt.Println(parent.Class)
 		}
 	}
 }
